@@ -63,7 +63,7 @@ def data_shard(idx, nshards):
 # ----------------------------------------------------------------------------- (b) Python callables
 
 SIGS = [(), ('x',), ('x', 'y'), ('x', 'y', 'z'), ('y', 'x'), ('z', 'y', 'x'), ('y', 'z', 'x'), ('x', 'z', 'y')]
-KINDS = ['lambda', 'def', 'method', 'pyimport']
+KINDS = ['lambda', 'def', 'method', 'decorated', 'pyimport']
 FORMS = ['direct', 'alias', 'projection', 'each', 'each2', 'over', 'at']
 ARGSETS = [(3, 4, 5), (0, -2, 7), ((1, 2), 9, (3, 4))]
 
@@ -87,6 +87,16 @@ def make_callable(kind, sig, with_klong, log):
     if kind == 'def':
         exec(f'def fn({names}):\n    return record({names})', ns)
         return ns['fn']
+    if kind == 'decorated':
+        # an ordinary functools.wraps decorator: inspect.signature still reports the wrapped function's parameters
+        import functools
+        exec(f'def fn({names}):\n    return record({names})', ns)
+        inner = ns['fn']
+
+        @functools.wraps(inner)
+        def wrapper(*args, **kwargs):
+            return inner(*args, **kwargs)
+        return wrapper
     if kind == 'method':
         exec(f'class H:\n    def m(self{", " if names else ""}{names}):\n        return record({names})', ns)
         return ns['H']().m
